@@ -731,7 +731,10 @@ returns:
    uint16: len of this entry inside that was inside the byte slice
    error:
 */
-func GetCvalFromRec(rec []byte, qid uint64, retVal *CValueEnclosure) (uint16, error) {
+func GetCvalFromRec(rec []byte, qid uint64, retVal *CValueEnclosure) (_ uint16, retErr error) {
+	// rec is cut out of a column block with lengths taken from un-checksummed metadata (.sfm cValSize, record length
+	// prefixes): a record shorter than its type needs must be an error for this segment, not a panic of the server
+	defer utils.RecoverToError(&retErr, "GetCvalFromRec")
 
 	if len(rec) == 0 {
 		return 0, errors.New("column value is empty")
